@@ -693,6 +693,34 @@ func driverCorrupt(c *Ctx) {
 				}
 			}
 		}
+		if i%8 == 0 {
+			// float arrays of 1..4 values with one non-finite value at each position, at top level and in a list
+			for n := 1; n <= 4; n++ {
+				for at := 0; at < n; at++ {
+					for _, w := range []int{4, 8} {
+						for _, pat := range [][]byte{{0x7F, 0xC0}, {0x7F, 0x80}, {0xFF, 0x80}, {0xFF, 0xF8}, {0x7F, 0xF0}, {0xFF, 0xF0}} {
+							fb := byte(0x91)
+							if w == 8 {
+								fb = 0x81
+							}
+							t := []byte{fb, byte(n * w)}
+							for k := 0; k < n; k++ {
+								v := make([]byte, w)
+								v[0], v[1] = 0x3F, 0x80 // 1.0 / a finite double
+								if k == at {
+									copy(v, pat)
+								}
+								t = append(t, v...)
+							}
+							if g.pick(2) == 0 {
+								t = append([]byte{0x01, 0x02, 0xA5, 0x01, 0x07}, t...)
+							}
+							add("float-array", setLen(append(clone(base[:14]), t...)))
+						}
+					}
+				}
+			}
+		}
 		// unstructured bytes
 		for k := 0; k < 6; k++ {
 			n := 10 + g.pick(30)
